@@ -238,8 +238,27 @@ P_ATOMS = {(1,): 'python_version < "3.8"', (2, 3): 'python_version >= "3.8"', (1
            (3,): 'python_version >= "3.9"', (2,): 'python_version == "3.8"', (1, 3): 'python_version != "3.8"'}
 R_ATOMS = {(1,): 'sys_platform in "a"', (1, 2): 'sys_platform in "a b"', (2,): 'sys_platform in "b"', (2, 3): 'sys_platform in "b c"',
            (3,): 'sys_platform in "c"', (1, 3): 'sys_platform in "a c"'}
-NF_GRID = [{"python_version": f"3.{6 + p}", "python_full_version": f"3.{6 + p}.0", "sys_platform": "abc"[r - 1]} for p in (1, 2, 3) for r in (1, 2, 3)]
-VAR_NAME = {"p": "python_version", "r": "sys_platform"}
+Q_ATOMS = {(1,): 'os_name in "a"', (2,): 'os_name in "b"'}
+T_ATOMS = {(1,): 'platform_machine in "a"', (2,): 'platform_machine in "b"'}
+ATOM_TEXT = {"p": P_ATOMS, "r": R_ATOMS, "q": Q_ATOMS, "t": T_ATOMS}
+VAR_NAME = {"p": "python_version", "r": "sys_platform", "q": "os_name", "t": "platform_machine"}
+
+
+def nf_grid(vars_: list[str], dom: list[int]):
+    """(abstract environment, concrete environment) pairs: value k of p is python 3.(6+k), of the others 'abc'[k-1]."""
+    import itertools
+    out = []
+    for combo in itertools.product(dom, repeat=len(vars_)):
+        ab = dict(zip(vars_, combo))
+        env = {}
+        for v, k in ab.items():
+            if v == "p":
+                env["python_version"] = f"3.{6 + k}"
+                env["python_full_version"] = f"3.{6 + k}.0"
+            else:
+                env[VAR_NAME[v]] = "abc"[k - 1]
+        out.append((ab, env))
+    return out
 
 
 def nf_text(m: dict) -> str:
@@ -249,8 +268,7 @@ def nf_text(m: dict) -> str:
     if k == "any":
         return ""
     if k == "atom":
-        key = tuple(sorted(m["set"]))
-        return (P_ATOMS if m["var"] == "p" else R_ATOMS)[key]
+        return ATOM_TEXT[m["var"]][tuple(sorted(m["set"]))]
     parts = []
     for c in m["ch"]:
         t = nf_text(c)
@@ -258,20 +276,23 @@ def nf_text(m: dict) -> str:
     return (" and " if k == "and" else " or ").join(parts)
 
 
-def nf_holds(m: dict, p: int, r: int) -> bool:
+def nf_holds(m: dict, ab: dict) -> bool:
     k = m["k"]
     if k == "empty":
         return False
     if k == "any":
         return True
     if k == "atom":
-        return (p if m["var"] == "p" else r) in m["set"]
-    vals = [nf_holds(c, p, r) for c in m["ch"]]
+        return ab[m["var"]] in m["set"]
+    vals = [nf_holds(c, ab) for c in m["ch"]]
     return all(vals) if k == "and" else any(vals)
 
 
-def _nf_chunk(states):
+def _nf_chunk(args):
+    states, vars_, dom = args
     from dep_logic.markers import parse_marker
+    grid = nf_grid(vars_, dom)
+    NF_GRID = [env for _, env in grid]
     fails, n = [], 0
     for st in states:
         op = st["op"]
@@ -290,7 +311,11 @@ def _nf_chunk(states):
             if op == "or":
                 return x | y
             v = VAR_NAME[op.split("_")[1]]
-            return x.exclude(v) if op.startswith("exclude") else x.only(v)
+            if op.startswith("exclude"):
+                return x.exclude(v)
+            if op.startswith("onlynot"):
+                return x.only(*[VAR_NAME[w] for w in vars_ if VAR_NAME[w] != v])
+            return x.only(v)
         res, exc = drive_marker.timed(call)
         if exc == "Timeout":
             continue
@@ -298,7 +323,7 @@ def _nf_chunk(states):
         if exc:
             fails.append((pidx, f"{pidx}:nf-b1:{op}:raises-{exc}", f"{op} on {ctx['x']!r}, {ctx['y']!r} raised {exc}", ctx))
             continue
-        want = [nf_holds(st["res"], p, r) for p in (1, 2, 3) for r in (1, 2, 3)]
+        want = [nf_holds(st["res"], ab) for ab, _ in grid]
         got = drive_marker.table_of(res, NF_GRID)
         ctx["result"] = drive_marker._key(res)
         if op in ("and", "or"):
@@ -314,6 +339,13 @@ def _nf_chunk(states):
                     fails.append(("C12", f"C12:nf-b1:{op}:leaks-variable", f"{ctx['x']!r}.exclude({v!r}) -> {ctx['result']!r}", ctx))
                 elif v not in drive_marker.vars_of(x) and got != tx:
                     fails.append(("C12", f"C12:nf-b1:{op}:changes-meaning", f"{ctx['x']!r}.exclude({v!r}) -> {ctx['result']!r}", ctx))
+            elif op.startswith("onlynot"):
+                if v in rv:
+                    fails.append(("C12", f"C12:nf-b1:{op}:leaks-variable", f"{ctx['x']!r}.only(all but {v!r}) -> {ctx['result']!r}", ctx))
+                elif any(a and not b for a, b in zip(tx, got)):
+                    fails.append(("C12", f"C12:nf-b1:{op}:not-implied", f"{ctx['x']!r}.only(all but {v!r}) -> {ctx['result']!r} is not implied by the marker", ctx))
+                elif v not in drive_marker.vars_of(x) and got != tx:
+                    fails.append(("C12", f"C12:nf-b1:{op}:changes-meaning", f"{ctx['x']!r}.only(all but {v!r}) -> {ctx['result']!r}", ctx))
             else:
                 if not rv <= {v}:
                     fails.append(("C12", f"C12:nf-b1:{op}:leaks-variable", f"{ctx['x']!r}.only({v!r}) -> {ctx['result']!r}", ctx))
@@ -418,12 +450,13 @@ def group_algebra_mc(rep: Report, pid: str, thorough: bool) -> None:
     rep.count("group_table_vectors_replayed", total)
 
 
-def _nf_extra(rep: Report, spec: str, sel: str, invs: list[str], dump: bool, props=(), constraint=None, timeout=1500):
+def _nf_extra(rep: Report, spec: str, sel: str, invs: list[str], dump: bool, props=(), constraint=None, timeout=1500,
+              vars_='{"p", "r"}', dom="{1, 2, 3}"):
     """Another configuration of MarkerNormalForm (Proj: larger inputs x projections; Closure: results as operands)."""
     tmp = tempfile.mkdtemp(prefix="verif_nfx_")
     try:
         cfgp = os.path.join(tmp, "c.cfg")
-        open(cfgp, "w").write(f'SPECIFICATION {spec}\nCONSTANTS\n Vars = {{"p", "r"}}\n Dom = {{1, 2, 3}}\n AtomSel <- {sel}\n' +
+        open(cfgp, "w").write(f'SPECIFICATION {spec}\nCONSTANTS\n Vars = {vars_}\n Dom = {dom}\n AtomSel <- {sel}\n' +
                               "".join(f"INVARIANT {i}\n" for i in invs) + "".join(f"PROPERTY {q}\n" for q in props) +
                               (f"CONSTRAINT {constraint}\n" if constraint else "") + "CHECK_DEADLOCK FALSE\n")
         d = os.path.join(tmp, "d")
@@ -600,6 +633,9 @@ def normal_form_mc(rep: Report, pid: str, thorough: bool) -> None:
         # projections: the Proj configuration (larger inputs, every variable) is the relevant one
         states = _nf_extra(rep, "ProjSpec", "SelQuick" if thorough else "SelProj", ["Projections", "ResultNormal"], dump=True)
         _nf_replay(rep, pid, states)
+        # four variables, alternatives that become comparable only after elimination (Fam3)
+        states4 = _nf_extra(rep, "ProjSpec", "SelFour", ["Projections", "ResultNormal"], dump=True, vars_='{"p", "r", "q", "t"}', dom="{1, 2}")
+        _nf_replay(rep, pid, states4, vars_=("p", "r", "q", "t"), dom=(1, 2))
         return
     tmp = tempfile.mkdtemp(prefix="verif_nf_")
     try:
@@ -626,11 +662,11 @@ def normal_form_mc(rep: Report, pid: str, thorough: bool) -> None:
     _nf_replay(rep, pid, states)
 
 
-def _nf_replay(rep: Report, pid: str, states: list) -> None:
+def _nf_replay(rep: Report, pid: str, states: list, vars_=("p", "r"), dom=(1, 2, 3)) -> None:
     size = max(1, len(states) // 48)
     total = 0
     with mp.Pool(16) as pool:
-        for n, fails in pool.map(_nf_chunk, [states[i:i + size] for i in range(0, len(states), size)]):
+        for n, fails in pool.map(_nf_chunk, [(states[i:i + size], list(vars_), list(dom)) for i in range(0, len(states), size)]):
             total += n
             for (p, sig, detail, vec) in fails:
                 if p == pid:
